@@ -243,7 +243,7 @@ class ValueGen:
     """Type-directed generator of wire values (mask bits and sizes consistent by construction)."""
 
     STR_LENS = [0, 0, 1, 2, 3, 4, 5, 7, 8, 15, 16, 31, 100]
-    STR_RARE = [253, 254, 255, 256, 257, 300]
+    STR_RARE = [252, 253, 253, 253, 254, 254, 255, 256, 257, 300]
 
     def __init__(self, ins, rng, max_nodes=4000, max_depth=12):
         self.ins = ins
@@ -305,7 +305,7 @@ class ValueGen:
 
     def string(self):
         r = self.rng
-        l = r.choice(self.STR_LENS) if r.random() < 0.93 else r.choice(self.STR_RARE)
+        l = r.choice(self.STR_LENS) if r.random() < 0.9 else r.choice(self.STR_RARE)
         mode = r.random()
         if mode < 0.5:
             return bytes(r.choice(b"abcXYZ019 _") for _ in range(l))
